@@ -331,13 +331,13 @@ PROPS["C01"] = {
                               "effects/retryexecutor:executor.Apply", "effects/circuitbreakerexecutor:executor.PreExecute", "effects/bulkheadexecutor:executor.PreExecute",
                               "effects/bulkheadexecutor:executor.PostExecute", "effects/ratelimiterexecutor:executor.Apply", "effects/timeoutexecutor:executor.Apply",
                               "effects/hedgeexecutor:executor.Apply", "effects/fallbackexecutor:executor.Apply", "effects/cacheexecutor:executor.PreExecute"],
-    "required_theorems": ["Failsafe.Props.C01.execute_is_nesting", "Failsafe.Props.C01.layer_done", "Failsafe.Props.C01.caller_gets_outermost",
+    "required_theorems": ["Failsafe.Props.C01.den_compositional", "Failsafe.Props.C01.execute_denotation", "Failsafe.Props.C01.applyDen_any_flags", "Failsafe.Props.C01.execute_is_nesting", "Failsafe.Props.C01.layer_done", "Failsafe.Props.C01.caller_gets_outermost",
                           "Failsafe.Props.C01.rejecting_layer_ignores_inner", "Failsafe.Props.C01.applyPolicy_done",
                           "Failsafe.Props.C01.applyPolicy_congr", "Failsafe.Props.C01.stack_congr", "Failsafe.Props.C01.flags_are_plumbing"],
     "diff": [COMPOSE_DIFF], "rule": COMPOSE_RULE, "assumptions": COMPOSE_ASSUME, "modelled": COMPOSE_MODELLED,
     "manifest": {
         "text": "Lean 4 theorems over the sequential composition model of all eight policies: the composition loop is the nesting P1(P2(...Pn(fn))) for every policy list with repetition (execute_is_nesting); every layer boundary of every stack returns a finished result (layer_done, induction over the list; retry and hedge by induction on their loops); the caller receives exactly the outermost layer's result and the completion listeners report its SuccessAll (caller_gets_outermost); a rejecting breaker / bulkhead / rate limiter returns its own result whatever is inside it (the function is invoked only when every enclosing policy admits); every policy layer, and hence every stack, depends on what is inside it only through (value, error, verdict, run state) - the Done / Success flags are plumbing (applyPolicy_congr, stack_congr: congruence by cases and by induction on the retry and hedge loops). Per-policy behaviour over an arbitrary inner layer is in C02/C10/C11/C16/C17. Tie: FACTS (composition loop, effect order of every executor), GEN (flag algebra, IsFailure), DIFF of random stacks of the real policies against the model (result, error tree, verdict, invocations, statistics, full event log, world).",
-        "note": "Trusted: Lean kernel; translator/fact extractor; harness. Timeout and hedge are covered for deterministic timed scripts (instant or block-until-cancelled outcomes); their racing schedules are C07/C09. That the Done / Success flags never influence behaviour is proved (stack_congr); a separately written flag-free denotation of each policy (the spec of DESIGN Appendix A) was not added.",
+        "note": "Trusted: Lean kernel; translator/fact extractor; harness. Timeout and hedge are covered for deterministic timed scripts (instant or block-until-cancelled outcomes); their racing schedules are C07/C09. That the Done / Success flags never influence behaviour is proved (stack_congr), and the semantics is shown to factor through the flag-free domain of observable meanings (den_compositional / execute_denotation: every policy has a meaning function on (value, error, verdict, run), independent of the flag values chosen for a representative); the meaning functions are derived from the model, not written separately.",
         "technique": "Lean 4 proof (induction over policy lists, per-layer lemmas over arbitrary inner layers) + structural facts + differential correspondence"},
 }
 PROPS["C02"] = {
